@@ -33,7 +33,8 @@
 //                  `?` when the index is unknown;  run: indices of the child graphs evaluated in this cycle, sorted
 //          act/cg: TslMapNodeView::active_count() / child_graph_count() after the cycle
 //        "idle" the root graph was not evaluated in that cycle
-//   run                            -> "end ev=<stop events at shutdown> n=<number of stop events>"
+//   run                            -> "end ev=<stop events at node stop> n=<number of them> late=<stop events of children
+//                                      that only came AFTER the run had returned (at executor / storage destruction)>"
 // A history is run when `run`, the next `case` or EOF is read.  Errors -> "err:<class>".
 #include "hgv_common.h"
 
@@ -490,7 +491,8 @@ namespace
 
         Obs                      obs;
         std::vector<std::string> lines;
-        bool                     failed = false;
+        bool                     failed      = false;
+        std::size_t              stops_in_run = 0;   // child stop events seen until view.run() returned (node stop)
         {
             GraphExecutorBuilder eb;
             eb.graph_builder(std::move(gb))
@@ -509,6 +511,7 @@ namespace
                 failed_at = testing::cycle_offset(view.graph().evaluation_time());
                 failed    = true;
             }
+            stops_in_run = obs.shutdown.size();
 
             auto                              recorded = testing::get_recorded_deltas(view.graph().global_state(), "hgv::out");
             for (std::size_t i = 0; i < cycles.size(); ++i)
@@ -533,8 +536,13 @@ namespace
                 lines.push_back(s.str());
             }
         }
+        // children stopped by the node's stop (inside run()) vs. children that were only stopped when the executor and
+        // the node storage were destroyed
+        std::vector<Ev> at_stop(obs.shutdown.begin(), obs.shutdown.begin() + static_cast<std::ptrdiff_t>(std::min(stops_in_run, obs.shutdown.size())));
+        const auto      late = obs.shutdown.size() - at_stop.size();
         lines.push_back(failed ? std::string{"err:exception"}
-                               : "end ev=" + events_text(obs.shutdown, false) + " n=" + std::to_string(count_kind(obs.shutdown, '-')));
+                               : "end ev=" + events_text(at_stop, false) + " n=" + std::to_string(count_kind(at_stop, '-')) +
+                                     " late=" + std::to_string(late));
         return lines;
     }
 }  // namespace
@@ -555,7 +563,7 @@ int main()
         try
         {
             if (cfg_bad) { throw std::invalid_argument("cfg"); }
-            if (cycles.empty()) { lines = {"end ev=- n=0"}; }   // nothing to run
+            if (cycles.empty()) { lines = {"end ev=- n=0 late=0"}; }   // nothing to run
             else { lines = run_history(cfg, cycles); }
         }
         catch (const OperatorResolutionError &) { lines.assign(cycles.size() + 1, "err:resolution"); }
